@@ -122,6 +122,12 @@ func runOne(t *testing.T, tape *simrt.Tape, a *Args, w WorldFunc, seed uint64, i
 	res = Result{Seed: seed, Index: idx}
 	lastBeat.Store(time.Now().UnixNano())
 	curRun.Store(fmt.Sprintf("seed=%d idx=%d", seed, idx))
+	if a.Out != "" && tape != nil {
+		// breadcrumb for the driver: which run was in progress if the process
+		// dies from a panic in a goroutine the harness does not own
+		b, _ := json.Marshal(map[string]interface{}{"seed": seed, "index": idx, "knobs": a.Knobs, "replay": tape.IsReplay()})
+		os.WriteFile(a.Out+".cur", b, 0o644)
+	}
 	func() {
 		defer func() {
 			if r := recover(); r != nil {
